@@ -47,6 +47,8 @@ pub struct Pass0Context {
     pub instructions: std::cell::Cell<u64>,
     // how many macro calls were expanded so far
     pub expansions: std::cell::Cell<u64>,
+    // how many lines other than instructions (data, labels, .set ...) macro bodies placed so far
+    pub expanded_items: std::cell::Cell<u64>,
 }
 
 impl Pass0Context {
@@ -96,6 +98,7 @@ pub fn build_pass_0(
         flash_size: crate::context::Context::get_device(common_context).flash_size,
         instructions: std::cell::Cell::new(0),
         expansions: std::cell::Cell::new(0),
+        expanded_items: std::cell::Cell::new(0),
     };
 
     for segment in parsed.segments {
@@ -119,6 +122,8 @@ pub fn build_pass_0(
 
 // macro calls expanded in one program
 const MAX_EXPANSIONS: u64 = 500_000;
+// lines other than instructions that macro bodies may place, beyond one per flash word
+const MAX_EXPANDED_ITEMS: u64 = 1_000_000;
 // longest line a macro body may grow to when its arguments are substituted
 const MAX_EXPANDED_LINE: usize = 4096;
 
@@ -196,6 +201,20 @@ fn pass0_internal(
                 }
             },
             _ => {
+                // macros that multiply themselves must not fill the memory with lines that
+                // place no instruction either
+                if depth > 0 {
+                    context
+                        .expanded_items
+                        .set(context.expanded_items.get() + 1);
+                    if context.expanded_items.get() > MAX_EXPANDED_ITEMS + context.flash_size as u64 {
+                        bail!(
+                            "macros expand to too many lines (more than {}), {}",
+                            MAX_EXPANDED_ITEMS + context.flash_size as u64,
+                            line
+                        );
+                    }
+                }
                 context.push_to_last((line.clone(), item.clone()));
             }
         }
